@@ -27,9 +27,17 @@ def frameType (f : Bytes) : Nat := (f.getD 4 0).toNat % 64
 def roundTrip (cur : Option Cell) (f : Bytes) : Option Bytes :=
   getData (undoCell (some (applyFrame cur f).1) (applyFrame cur f).2)
 
+/-- a frame that is not a PIPELINE is processed on its own -/
+theorem applyFrame_simple (cur : Option Cell) (f : Bytes) (h : frameType f ≠ 6) : applyFrame cur f = applySimple cur f := by
+  unfold applyFrame
+  have : ((f.getD 4 0).toNat % 64 == 6) = false := by unfold frameType at h; simpa using h
+  simp only [this, Bool.false_eq_true, if_false]
+
 /-- **SET is undone exactly** (whatever the cell was). -/
 theorem undo_set (cur : Option Cell) (f : Bytes) (h : frameType f = 0) : roundTrip cur f = getData cur := by
-  unfold roundTrip applyFrame frameType at *
+  unfold roundTrip
+  rw [applyFrame_simple cur f (by rw [h]; decide)]
+  unfold applySimple frameType at *
   simp only [h]
   simp only [beq_self_eq_true, if_true]
   unfold undoCell
@@ -41,12 +49,15 @@ theorem undo_set (cur : Option Cell) (f : Bytes) (h : frameType f = 0) : roundTr
 /-- **no value before: every undo ends in "no value"** (the cell did not exist yet). -/
 theorem undo_fresh (f : Bytes) : roundTrip none f = none := by
   unfold roundTrip applyFrame
-  simp only []
   split
-  · unfold undoCell; simp [getData, unsetCell, Cell.hasData]
-  · split
+  · split <;> (unfold undoCell; simp [getData, unsetCell, Cell.hasData])
+  · unfold applySimple
+    simp only []
+    split
     · unfold undoCell; simp [getData, unsetCell, Cell.hasData]
-    · unfold undoCell; simp [getData, unsetCell, Cell.hasData]
+    · split
+      · unfold undoCell; simp [getData, unsetCell, Cell.hasData]
+      · unfold undoCell; simp [getData, unsetCell, Cell.hasData]
 
 /-- a number cell as INCR itself leaves it behind: `[10,0,0,0, SET, NUMBER, 8 bytes]` -/
 def numberCell (n : Nat) (ctype : Nat) : Cell := ⟨[10, 0, 0, 0, 0, 1] ++ le64 n, ctype⟩
@@ -54,7 +65,9 @@ def numberCell (n : Nat) (ctype : Nat) : Cell := ⟨[10, 0, 0, 0, 0, 1] ++ le64 
 /-- **INCR over a number is undone exactly.** -/
 theorem undo_incr_number (n ctype : Nat) (hn : n < 2 ^ 64) (hc : ctype ≠ 1) (f : Bytes) (h : frameType f = 2) (hl : 4 ≤ f.length) :
     roundTrip (some (numberCell n ctype)) f = getData (some (numberCell n ctype)) := by
-  unfold roundTrip applyFrame frameType at *
+  unfold roundTrip
+  rw [applyFrame_simple _ f (by rw [h]; decide)]
+  unfold applySimple frameType at *
   simp only [h]
   have e0 : ((2 : Nat) == 0) = false := by decide
   simp only [e0, Bool.false_eq_true, if_false, beq_self_eq_true, if_true]
@@ -112,7 +125,9 @@ theorem getD_eq_of_take_drop (d : Bytes) (h6 : 6 ≤ d.length) : d = d.take 4 ++
 theorem undo_append (p : Cell) (hd : p.hasData = true) (hw : p.wf) (f : Bytes) (h : frameType f = 3) (hl : 6 ≤ f.length) :
     roundTrip (some p) f = getData (some p) := by
   obtain ⟨h6, h4, h0⟩ := hw
-  unfold roundTrip applyFrame frameType at *
+  unfold roundTrip
+  rw [applyFrame_simple _ f (by rw [h]; decide)]
+  unfold applySimple frameType at *
   simp only [h]
   have e0 : ((3 : Nat) == 0) = false := by decide
   have e2 : ((3 : Nat) == 2) = false := by decide
@@ -154,5 +169,114 @@ theorem undo_append (p : Cell) (hd : p.hasData = true) (hw : p.wf) (f : Bytes) (
   rw [h0] at this
   simp only [List.append_nil]
   exact this.symm
+
+/-! ### PIPELINE: the undo is the cell saved before the pipeline (c3f898d) -/
+
+theorem getD4_append (a : Bytes) (x : UInt8) (r : Bytes) (h : a.length = 4) : (a ++ x :: r).getD 4 0 = x := by
+  match a, h with
+  | [_, _, _, _], _ => rfl
+
+theorem mem_of_getLast? {α : Type} : ∀ (l : List α) (x : α), l.getLast? = some x → x ∈ l := by
+  intro l
+  induction l with
+  | nil => intro x h; simp at h
+  | cons a t ih =>
+    intro x h
+    cases t with
+    | nil => simp at h; subst h; simp
+    | cons b t' =>
+      rw [List.getLast?_cons_cons] at h
+      exact List.mem_cons_of_mem _ (ih x h)
+
+/-- what a simple frame of the subset leaves is a value cell, and its bytes are never those of the UNSET cell -/
+theorem applySimple_post (cur : Option Cell) (g : Bytes) (hg : simpleOk g = true) :
+    (applySimple cur g).1.ctype ≠ 1 ∧ (applySimple cur g).1.data.getD 4 0 ≠ 1 := by
+  unfold simpleOk at hg
+  simp only [Bool.and_eq_true, decide_eq_true_eq] at hg
+  obtain ⟨⟨⟨h6, _⟩, _⟩, _⟩ := hg
+  have ht4 : (g.take 4).length = 4 := by simp; omega
+  unfold applySimple
+  simp only []
+  split
+  · rename_i h0
+    refine ⟨by simp, ?_⟩
+    simp only []
+    intro h1
+    rw [h1] at h0
+    exact absurd h0 (by decide)
+  · split
+    · refine ⟨by simp, ?_⟩
+      simp only []
+      rw [List.append_assoc, List.cons_append, getD4_append _ _ _ ht4]
+      decide
+    · cases cur with
+      | none =>
+        refine ⟨by simp, ?_⟩
+        simp only []
+        rw [List.append_assoc, List.cons_append, getD4_append _ _ _ ht4]
+        decide
+      | some x =>
+        simp only []
+        split
+        · refine ⟨by simp, ?_⟩
+          simp only []
+          rw [List.append_assoc, List.append_assoc, List.cons_append, getD4_append _ _ _ (le32_length _)]
+          decide
+        · refine ⟨by simp, ?_⟩
+          simp only []
+          rw [List.append_assoc, List.cons_append, getD4_append _ _ _ ht4]
+          decide
+
+/-- **A PIPELINE is undone exactly**, whatever its last sub-operation is and whatever the cell held (a number, bytes, nothing, the UNSET
+cell): the undo record of a pipeline carries no operand, and since c3f898d such a record puts the cell saved before the pipeline back
+(before, `ProcessRecoverLockData` ran the last sub-operation's own undo on the missing operand: a panic, or nothing restored). `hw`: a cell
+typed UNSET is the UNSET cell (all the code ever makes). -/
+theorem undo_pipeline (cur : Option Cell) (f : Bytes) (h : frameType f = 6) (hf : pipeOk f = true)
+    (hw : ∀ p, cur = some p → p.ctype = 1 → p = unsetCell) : roundTrip cur f = getData cur := by
+  unfold pipeOk at hf
+  simp only [Bool.and_eq_true] at hf
+  obtain ⟨_, hsub⟩ := hf
+  unfold roundTrip applyFrame
+  have h6 : ((f.getD 4 0).toNat % 64 == 6) = true := by unfold frameType at h; simpa using h
+  simp only [h6, if_true]
+  cases hp : pipeSubs f with
+  | none => rw [hp] at hsub; simp at hsub
+  | some l =>
+    rw [hp] at hsub
+    cases l with
+    | nil => simp at hsub
+    | cons g gs =>
+      simp only [] at hsub
+      have hne : (g :: gs).getLast? = some ((g :: gs).getLast (by simp)) := List.getLast?_eq_getLast (by simp)
+      simp only [Option.bind, hne]
+      have hm := mem_of_getLast? _ _ hne
+      have hok : simpleOk ((g :: gs).getLast (by simp)) = true := (List.all_eq_true.mp hsub) _ hm
+      obtain ⟨hc1, hd4⟩ := applySimple_post cur _ hok
+      generalize (applySimple cur ((g :: gs).getLast (by simp))).1 = a at hc1 hd4
+      unfold undoCell
+      simp only []
+      have e1 : (a.ctype != 1 && a.ctype != a.ctype) = false := by simp
+      simp only [e1, Bool.false_eq_true, if_false]
+      cases cur with
+      | none => simp [getData, unsetCell, Cell.hasData]
+      | some p =>
+        simp only []
+        split
+        · rfl
+        · simp only [if_true]
+          split
+          · rename_i hdat
+            have hdat' : a.data = p.data := by simpa using hdat
+            have hpc : p.ctype ≠ 1 := by
+              intro hu
+              have := hw p rfl hu
+              rw [this] at hdat'
+              rw [hdat'] at hd4
+              exact hd4 (by decide)
+            unfold getData Cell.hasData
+            have ea : (a.ctype != 1) = true := by simpa using hc1
+            have ep : (p.ctype != 1) = true := by simpa using hpc
+            simp [ea, ep, hdat']
+          · rfl
 
 end Slock.Ack
